@@ -180,6 +180,9 @@ def spell_rule(sp, inner, r):
         _, pseudo, decls, margins = r
         name = sp.rng.choice([None, None, None, 'cover']) if sp.level >= 3 else None
         mid = ['m'] if (name and sp.level >= 2 and sp.rng.random() < 0.3) else []
+        if pseudo and sp.level >= 3 and sp.rng.random() < 0.3:
+            # the code keeps the pseudo-page name as written (known finding C02-page-pseudo-case); so does the model
+            pseudo = pseudo.upper()
         sel = (name, mid, pseudo)
         # with an empty selector the two gaps would be one in the text
         return ('page', sp.mask('page', True), sp.gap(need=bool(name)), sel, sp.gap() if (name or pseudo) else [],
